@@ -373,6 +373,16 @@ fn time_case(id: &str, f: &[&str], out: &mut String) {
     writeln!(out, "{id} evalt {r}").unwrap();
 }
 
+// R <id> <hex text>: the expression main.rs applies to --time-limited-current
+fn current_case(id: &str, f: &[&str], out: &mut String) {
+    let text = unhex_str(f[0]);
+    let r = guard(|| match text.parse::<chrono::DateTime<chrono::Local>>() {
+        Ok(t) => format!("{}:{}", t.timestamp(), if t.timestamp_subsec_nanos() >= 1_000_000_000 { 1 } else { 0 }),
+        Err(_) => "none".to_string(),
+    });
+    writeln!(out, "{id} cur {r}").unwrap();
+}
+
 fn marker_case(id: &str, f: &[&str], out: &mut String) {
     let mut store = String::new();
     let attrs = attr_field("name", f[0], &mut store);
@@ -401,6 +411,7 @@ fn main() {
             "F" => formatter_case(f[1], &f[2..], &mut out),
             "T" => time_case(f[1], &f[2..], &mut out),
             "M" => marker_case(f[1], &f[2..], &mut out),
+            "R" => current_case(f[1], &f[2..], &mut out),
             _ => {}
         }
         w.write_all(out.as_bytes()).unwrap();
